@@ -140,7 +140,7 @@ func configCase(c M) M {
 		discWorld = w
 	})
 	o := M{"issuerDoc": "other", "issuerToken": "none", "badEndpoints": []string{}, "grantsAdv": []string{}, "grantsAcc": []string{},
-		"s256Adv": false, "s256OK": false, "plainOK": false, "reqobjAdv": false, "reqobjOK": false, "panic": false}
+		"s256Adv": false, "s256OK": false, "plainOK": false, "reqobjAdv": false, "reqobjOK": false, "reqobjInnerOK": false, "issuerImplicit": "none", "panic": false}
 	p := CatchPanic(func() {
 		d := buildDisc(c)
 		r := d.do(http.MethodGet, d.issuer+"/.well-known/openid-configuration", nil, nil)
@@ -273,6 +273,29 @@ func configCase(c M) M {
 				o["issuerToken"] = "same"
 			}
 		}
+		// ---- the implicit flow through the advertised authorization endpoint: issuer of the ID token in the fragment
+		{
+			q := url.Values{"client_id": {"cx"}, "redirect_uri": {opdrv.ConcreteURI["ucx"]}, "response_type": {"id_token token"}, "scope": {"openid"}, "state": {"s"}, "nonce": {"n"}}
+			r := d.do(http.MethodGet, doc.AuthorizationEndpoint, q, nil)
+			if id := strings.TrimPrefix(r.Location, "/login?authRequestID="); r.Status == http.StatusFound && id != r.Location {
+				d.store.Login(id, "u1")
+				r = d.do(http.MethodGet, doc.AuthorizationEndpoint+"/callback", url.Values{"id": {id}}, nil)
+				if u, err := url.Parse(r.Location); err == nil {
+					fv, _ := url.ParseQuery(u.EscapedFragment())
+					if idt := fv.Get("id_token"); strings.Count(idt, ".") == 2 {
+						pl, _ := base64.RawURLEncoding.DecodeString(strings.Split(idt, ".")[1])
+						var cl struct {
+							Iss string `json:"iss"`
+						}
+						json.Unmarshal(pl, &cl)
+						o["issuerImplicit"] = "other:" + cl.Iss
+						if cl.Iss == doc.Issuer {
+							o["issuerImplicit"] = "same"
+						}
+					}
+				}
+			}
+		}
 		for _, m := range doc.CodeChallengeMethodsSupported {
 			if m == oidc.CodeChallengeMethodS256 {
 				o["s256Adv"] = true
@@ -296,6 +319,20 @@ func configCase(c M) M {
 				d.store.Lock()
 				if ar, ok := d.store.Requests[id]; ok && ar.State == "from-object" {
 					o["reqobjOK"] = true
+				}
+				d.store.Unlock()
+			}
+			// the redirect_uri travels inside the signed object only
+			claims["redirect_uri"] = opdrv.ConcreteURI["ucj"]
+			pl, _ = json.Marshal(claims)
+			p64 = b64.EncodeToString(pl)
+			obj = h64 + "." + p64 + "." + b64.EncodeToString(rawSign("ES256", k, []byte(h64+"."+p64)))
+			q = url.Values{"client_id": {"cj"}, "response_type": {"code"}, "scope": {"openid"}, "state": {"from-query"}, "request": {obj}}
+			r = d.do(http.MethodGet, doc.AuthorizationEndpoint, q, nil)
+			if id := strings.TrimPrefix(r.Location, "/login?authRequestID="); r.Status == http.StatusFound && id != r.Location {
+				d.store.Lock()
+				if ar, ok := d.store.Requests[id]; ok && ar.State == "from-object" && ar.URI == opdrv.ConcreteURI["ucj"] {
+					o["reqobjInnerOK"] = true
 				}
 				d.store.Unlock()
 			}
